@@ -28,33 +28,30 @@ Qed.
 
 (* a token the library refuses, a line that is too long, or a failing reader *)
 Definition input_bad (parse : bytes -> pres) (ls : list bytes) (e : scan_end) : Prop :=
-  e <> ScanEof \/ exists l b, In l ls /\ parse l = PBad b.
+  e <> ScanEof \/ exists l, In l ls /\ parse l = PBad.
 
 (* the script of the source goroutine: either every token parsed and the scan
    ended at EOF, and the script is exactly the parsed documents; or the input is
    bad and the script ends with an error *)
-Lemma script_cases : forall parse ls e,
-  (e = ScanEof /\ exists docs, Forall2 (fun l d => parse l = PDoc d) ls docs /\ script parse ls e = map IDoc docs) \/
-  (input_bad parse ls e /\ exists sent k, script parse ls e = map IDoc sent ++ [IErr k] /\
-     (k = STooLong \/ k = SRead \/ exists b l, k = SParse b /\ In l ls /\ parse l = PBad b)).
+Lemma script_cases : forall parse eofc ls e,
+  (e = ScanEof /\ exists docs, Forall2 (fun l d => parse l = PDoc d) ls docs /\ script parse eofc ls e = map IDoc docs) \/
+  (input_bad parse ls e /\ exists sent k, script parse eofc ls e = map IDoc sent ++ [IErr k] /\
+     (k = STooLong \/ k = SRead eofc \/ k = SParse)).
 Proof.
-  intros parse ls e. induction ls as [|l ls IH]; cbn [script].
+  intros parse eofc ls e. induction ls as [|l ls IH]; cbn [script].
   - destruct e.
     + left. split; [reflexivity|]. exists []. split; [constructor|reflexivity].
     + right. split; [left; discriminate|]. exists [], STooLong. split; [reflexivity|]. left. reflexivity.
-    + right. split; [left; discriminate|]. exists [], SRead. split; [reflexivity|]. right. left. reflexivity.
-  - destruct (parse l) as [d|b] eqn:Ep.
+    + right. split; [left; discriminate|]. exists [], (SRead eofc). split; [reflexivity|]. right. left. reflexivity.
+  - destruct (parse l) as [d|] eqn:Ep.
     + destruct IH as [(He & docs & HF & Hs)|(Hbad & sent & k & Hs & Hk)].
       * left. split; [exact He|]. exists (d :: docs). split; [constructor; assumption|]. rewrite Hs. reflexivity.
       * right. split.
-        { destruct Hbad as [Hbad|(l' & b & Hin & Hp)]; [left; exact Hbad|].
-          right. exists l', b. split; [right; exact Hin|exact Hp]. }
-        exists (d :: sent), k. split; [rewrite Hs; reflexivity|].
-        destruct Hk as [Hk|[Hk|(b & l' & Hk & Hin & Hp)]]; [left; exact Hk|right; left; exact Hk|].
-        right. right. exists b, l'. split; [exact Hk|]. split; [right; exact Hin|exact Hp].
-    + right. split; [right; exists l, b; split; [left; reflexivity|exact Ep]|].
-      exists [], (SParse b). split; [reflexivity|]. right. right. exists b, l.
-      split; [reflexivity|]. split; [left; reflexivity|exact Ep].
+        { destruct Hbad as [Hbad|(l' & Hin & Hp)]; [left; exact Hbad|].
+          right. exists l'. split; [right; exact Hin|exact Hp]. }
+        exists (d :: sent), k. split; [rewrite Hs; reflexivity|exact Hk].
+    + right. split; [right; exists l; split; [left; reflexivity|exact Ep]|].
+      exists [], SParse. split; [reflexivity|]. right. right. reflexivity.
 Qed.
 
 (* ================================================================== CollectJSONStream, the loop alone *)
@@ -249,9 +246,10 @@ Variable deflate : bytes -> bytes.
 Variable inflate : bytes -> option bytes.
 Hypothesis inflate_deflate : forall p, inflate (deflate p) = Some p.
 Variable parse : bytes -> pres.
-(* the Extended JSON library never reports an error whose cause is io.EOF (the
-   select loop would take it for the end of the input) *)
-Hypothesis parse_no_eof : forall l, parse l <> PBad true.
+(* throughout: a failing reader fails with an error whose cause is not io.EOF
+   (the [false] argument of [script]); the select loop would take a wrapped
+   io.EOF for the end of the input *)
+Notation script := (script parse false).
 
 Definition item_docs_in (P : doc -> Prop) (items : list item) : Prop :=
   forall d, In (IDoc d) items -> P d.
@@ -261,7 +259,7 @@ Proof. intros d docs H. apply in_map. exact H. Qed.
 
 Theorem json_complete : forall ls e n evs s r,
   1 <= n < 2 ^ 31 ->
-  let items := script parse ls e in
+  let items := script ls e in
   (forall d, In (IDoc d) items -> doc_wf d) ->
   distinguishable KDyn (fun d => In (IDoc d) items) ->
   j_run deflate (j_init true n items) evs = Some s -> j_res s = Some r ->
@@ -275,7 +273,7 @@ Proof.
   intros ls e n evs s r Hn items Hwf Hdist Hrun Hres Hearly.
   pose proof (j_run_outcome deflate true evs (j_init true n items) _ _ eq_refl Hrun Hres Hearly) as (sent & c & Hfed & Hcases).
   cbn [j_init j_src j_coll] in Hfed, Hcases. fold items in Hcases.
-  destruct (script_cases parse ls e) as [(He & docs & HF & Hs)|(Hbad & sent0 & k0 & Hs & Hk0)]; fold items in Hs.
+  destruct (script_cases parse false ls e) as [(He & docs & HF & Hs)|(Hbad & sent0 & k0 & Hs & Hk0)]; fold items in Hs.
   - left. split; [exact He|]. exists docs. split; [exact HF|].
     destruct Hcases as [(Hsrc & Hr)|[(k & rest & Hsrc & _)|[(d & rest & now & a & _ & _ & Hne & Hr)|(Hc & _)]]].
     + left. rewrite Hs in Hsrc. apply map_IDoc_inj in Hsrc. subst sent.
@@ -293,9 +291,7 @@ Proof.
       { assert (Hin : In (IErr k) (map IDoc sent0 ++ [IErr k0])).
         { rewrite <- Hs, Hsrc. apply in_or_app. right. left. reflexivity. }
         apply in_app_or in Hin. destruct Hin as [Hin|[Hin|[]]]; [exfalso; exact (IErr_not_in_docs _ _ Hin)|].
-        injection Hin as <-.
-        destruct Hk0 as [->|[->|(b & l & -> & _ & Hp)]]; try reflexivity.
-        destruct b; [exfalso; exact (parse_no_eof l Hp)|reflexivity]. }
+        injection Hin as <-. destruct Hk0 as [->|[->| ->]]; reflexivity. }
       rewrite Hk in Hr. eexists. exact Hr.
     + eexists. exact Hr.
     + discriminate Hc.
@@ -304,7 +300,7 @@ Qed.
 (* a nil error means every line was scanned, parsed and added; cancellation is
    allowed here (it yields an error) *)
 Theorem json_never_short : forall ls e n evs s out,
-  let items := script parse ls e in
+  let items := script ls e in
   j_run deflate (j_init true n items) evs = Some s -> j_res s = Some (JOk out) ->
   j_early deflate true false (j_init true n items) evs = false ->
   e = ScanEof /\ exists docs c, Forall2 (fun l d => parse l = PDoc d) ls docs /\
@@ -313,7 +309,7 @@ Proof.
   intros ls e n evs s out items Hrun Hres Hearly.
   pose proof (j_run_outcome deflate false evs (j_init true n items) _ _ eq_refl Hrun Hres Hearly) as (sent & c & Hfed & Hcases).
   cbn [j_init j_src j_coll] in Hfed, Hcases. fold items in Hcases.
-  destruct (script_cases parse ls e) as [(He & docs & HF & Hs)|(Hbad & sent0 & k0 & Hs & Hk0)]; fold items in Hs.
+  destruct (script_cases parse false ls e) as [(He & docs & HF & Hs)|(Hbad & sent0 & k0 & Hs & Hk0)]; fold items in Hs.
   - split; [exact He|].
     destruct Hcases as [(Hsrc & Hr)|[(k & rest & Hsrc & _)|[(d & rest & now & a & _ & _ & Hne & Hr)|(_ & Hr)]]].
     + rewrite Hs in Hsrc. apply map_IDoc_inj in Hsrc. subst sent. exists docs, c. repeat split; assumption.
@@ -327,9 +323,7 @@ Proof.
       { assert (Hin : In (IErr k) (map IDoc sent0 ++ [IErr k0])).
         { rewrite <- Hs, Hsrc. apply in_or_app. right. left. reflexivity. }
         apply in_app_or in Hin. destruct Hin as [Hin|[Hin|[]]]; [exfalso; exact (IErr_not_in_docs _ _ Hin)|].
-        injection Hin as <-.
-        destruct Hk0 as [->|[->|(b & l & -> & _ & Hp)]]; try reflexivity.
-        destruct b; [exfalso; exact (parse_no_eof l Hp)|reflexivity]. }
+        injection Hin as <-. destruct Hk0 as [->|[->| ->]]; reflexivity. }
       rewrite Hk in Hr. discriminate Hr.
     + discriminate Hr.
     + discriminate Hr.
@@ -337,7 +331,7 @@ Qed.
 
 (* the documents of the lines the library accepts *)
 Definition parsed (ls : list bytes) : list doc :=
-  flat_map (fun l => match parse l with PDoc d => [d] | PBad _ => [] end) ls.
+  flat_map (fun l => match parse l with PDoc d => [d] | PBad => [] end) ls.
 
 Lemma parsed_all : forall ls docs, Forall2 (fun l d => parse l = PDoc d) ls docs -> parsed ls = docs.
 Proof.
@@ -353,7 +347,7 @@ Proof. intros d docs H. apply in_map_iff in H. destruct H as (x & Hx & Hin). inj
    on a bad input, an error *)
 Theorem json_total : forall ls e n evs s r,
   1 <= n < 2 ^ 31 -> docs_ok KDyn (parsed ls) ->
-  let items := script parse ls e in
+  let items := script ls e in
   j_run deflate (j_init true n items) evs = Some s -> j_res s = Some r ->
   j_early deflate true true (j_init true n items) evs = false ->
   (e = ScanEof /\ Forall2 (fun l d => parse l = PDoc d) ls (parsed ls) /\
@@ -364,7 +358,7 @@ Proof.
   intros ls e n evs s r Hn Hok items Hrun Hres Hearly.
   pose proof (j_run_outcome deflate true evs (j_init true n items) _ _ eq_refl Hrun Hres Hearly) as (sent & c & Hfed & Hcases).
   cbn [j_init j_src j_coll] in Hfed, Hcases. fold items in Hcases.
-  destruct (script_cases parse ls e) as [(He & docs & HF & Hs)|(Hbad & sent0 & k0 & Hs & Hk0)]; fold items in Hs.
+  destruct (script_cases parse false ls e) as [(He & docs & HF & Hs)|(Hbad & sent0 & k0 & Hs & Hk0)]; fold items in Hs.
   - left. split; [exact He|]. rewrite (parsed_all ls docs HF) in *. split; [exact HF|].
     destruct Hok as (Hwf & Hdist & Hnt).
     assert (Henv : env_ok (fun d => In d docs) KDyn).
@@ -395,9 +389,7 @@ Proof.
       { assert (Hin : In (IErr k) (map IDoc sent0 ++ [IErr k0])).
         { rewrite <- Hs, Hsrc. apply in_or_app. right. left. reflexivity. }
         apply in_app_or in Hin. destruct Hin as [Hin|[Hin|[]]]; [exfalso; exact (IErr_not_in_docs _ _ Hin)|].
-        injection Hin as <-.
-        destruct Hk0 as [->|[->|(b & l & -> & _ & Hp)]]; try reflexivity.
-        destruct b; [exfalso; exact (parse_no_eof l Hp)|reflexivity]. }
+        injection Hin as <-. destruct Hk0 as [->|[->| ->]]; reflexivity. }
       rewrite Hk in Hr. eexists. exact Hr.
     + eexists. exact Hr.
     + discriminate Hc.
@@ -604,6 +596,12 @@ Proof.
   rewrite Hid by lia. rewrite IH by lia. reflexivity.
 Qed.
 
+Lemma sample_ids_gens0 : forall (gen : Z -> Z -> doc),
+  (forall i t, 0 <= i < 2 ^ 63 -> sample_id (strip_doc (gen i t)) = Some i) ->
+  forall ts, Z.of_nat (length ts) <= 2 ^ 63 ->
+  map (fun d => sample_id (strip_doc d)) (gens gen 0 ts) = map Some (zseq 0 (length ts)).
+Proof. intros gen H ts Hb. apply (sample_ids_gens gen H ts 0); [apply Z.le_refl|exact Hb]. Qed.
+
 Section RuntimeFiles.
 Variable deflate : bytes -> bytes.
 Variable inflate : bytes -> option bytes.
@@ -691,20 +689,18 @@ End RuntimeFiles.
 (* three lines that all parse; the timer fires after the first document: a nil
    error and an output that decodes to one sample *)
 Definition wit_doc (v : Z) : doc := [([97]%N, VInt64 v)].
-Definition wit_parse (l : bytes) : pres := match l with [b] => PDoc (wit_doc (Z.of_N b)) | _ => PBad false end.
+Definition wit_parse (l : bytes) : pres := match l with [b] => PDoc (wit_doc (Z.of_N b)) | _ => PBad end.
 Definition wit_lines : list bytes := [[49]%N; [50]%N; [51]%N].
 
 Theorem json_timer_refuted :
-  let items := script wit_parse wit_lines ScanEof in
+  let items := script wit_parse false wit_lines ScanEof in
   let evs := [EvDoc 0; EvTimer] in
-  (forall l, wit_parse l <> PBad true) /\
   (exists docs, Forall2 (fun l d => wit_parse l = PDoc d) wit_lines docs /\ length docs = 3%nat) /\
   j_early deflate_flag false true (j_init true 5 items) evs = false /\
   exists s out, j_run deflate_flag (j_init true 5 items) evs = Some s /\ j_res s = Some (JOk out) /\
     option_map dc_docs (decode_ftdc inflate_flag None out) = Some [wit_doc 49].
 Proof.
-  cbv zeta. split; [|split; [|split]].
-  - intros l. unfold wit_parse. destruct l as [|b [|c l]]; discriminate.
+  cbv zeta. split; [|split].
   - exists [wit_doc 49; wit_doc 50; wit_doc 51]. split; [|reflexivity].
     constructor; [reflexivity|]. constructor; [reflexivity|]. constructor; [reflexivity|constructor].
   - vm_compute. reflexivity.
@@ -739,24 +735,24 @@ Variable inflate : bytes -> option bytes.
 Hypothesis inflate_deflate : forall p, inflate (deflate p) = Some p.
 
 Theorem json_total_input : forall parse limit inp rerr ls e n evs s r,
-  (forall l, parse l <> PBad true) -> 1 <= n < 2 ^ 31 ->
+  1 <= n < 2 ^ 31 ->
   scan limit inp rerr = (ls, e) -> docs_ok KDyn (parsed parse ls) ->
-  let init := j_init true n (source parse limit inp rerr) in
+  let init := j_init true n (source parse false limit inp rerr) in
   j_run deflate init evs = Some s -> j_res s = Some r -> j_early deflate true true init evs = false ->
   (e = ScanEof /\ Forall2 (fun l d => parse l = PDoc d) ls (parsed parse ls) /\
    exists out dec, r = JOk out /\ decode_ftdc inflate None out = Some dec /\
                    dc_docs dec = map strip_doc (parsed parse ls) /\ forallb (fun z => z <=? n) (dc_sizes dec) = true) \/
   (input_bad parse ls e /\ exists e', r = JErr e').
 Proof.
-  intros parse limit inp rerr ls e n evs s r Hp Hn Hscan Hok. unfold source. rewrite Hscan.
-  apply (json_total deflate inflate inflate_deflate parse Hp); assumption.
+  intros parse limit inp rerr ls e n evs s r Hn Hscan Hok. unfold source. rewrite Hscan.
+  apply (json_total deflate inflate inflate_deflate parse); assumption.
 Qed.
 
 Theorem json_refusal_input : forall parse limit inp rerr ls e n evs s r,
-  (forall l, parse l <> PBad true) -> 1 <= n < 2 ^ 31 ->
+  1 <= n < 2 ^ 31 ->
   scan limit inp rerr = (ls, e) ->
   (forall d, In d (parsed parse ls) -> doc_wf d) -> distinguishable KDyn (fun d => In d (parsed parse ls)) ->
-  let init := j_init true n (source parse limit inp rerr) in
+  let init := j_init true n (source parse false limit inp rerr) in
   j_run deflate init evs = Some s -> j_res s = Some r -> j_early deflate true true init evs = false ->
   (e = ScanEof /\ exists docs, Forall2 (fun l d => parse l = PDoc d) ls docs /\
      ((exists out dec, r = JOk out /\ decode_ftdc inflate None out = Some dec /\
@@ -764,33 +760,33 @@ Theorem json_refusal_input : forall parse limit inp rerr ls e n evs s r,
       (exists a, a <> ROk /\ r = JErr (JAdd a)))) \/
   (input_bad parse ls e /\ exists e', r = JErr e').
 Proof.
-  intros parse limit inp rerr ls e n evs s r Hp Hn Hscan Hwf Hdist. unfold source. rewrite Hscan.
-  assert (Hin : forall d, In (IDoc d) (script parse ls e) -> In d (parsed parse ls)).
+  intros parse limit inp rerr ls e n evs s r Hn Hscan Hwf Hdist. unfold source. rewrite Hscan.
+  assert (Hin : forall d, In (IDoc d) (script parse false ls e) -> In d (parsed parse ls)).
   { clear. induction ls as [|l ls IH]; intros d Hd; cbn [script] in Hd.
     - destruct e; cbn [In] in Hd; try contradiction; destruct Hd as [Hd|[]]; discriminate Hd.
-    - unfold parsed. cbn [flat_map]. destruct (parse l) as [x|b].
+    - unfold parsed. cbn [flat_map]. destruct (parse l) as [x|].
       + destruct Hd as [Hd|Hd]; [injection Hd as ->; left; reflexivity|]. apply in_or_app. right. apply IH. exact Hd.
       + destruct Hd as [Hd|[]]. discriminate Hd. }
-  apply (json_complete deflate inflate inflate_deflate parse Hp); try assumption.
+  apply (json_complete deflate inflate inflate_deflate parse); try assumption.
   - intros d Hd. apply Hwf, Hin, Hd.
   - intros a b Ha Hb. apply Hdist; apply Hin; assumption.
 Qed.
 
 Theorem json_never_short_input : forall parse limit inp rerr ls e n evs s out,
-  (forall l, parse l <> PBad true) -> scan limit inp rerr = (ls, e) ->
-  let init := j_init true n (source parse limit inp rerr) in
+  scan limit inp rerr = (ls, e) ->
+  let init := j_init true n (source parse false limit inp rerr) in
   j_run deflate init evs = Some s -> j_res s = Some (JOk out) -> j_early deflate true false init evs = false ->
   e = ScanEof /\ exists docs c, Forall2 (fun l d => parse l = PDoc d) ls docs /\
     fed (dy_new n) docs c /\ JOk out = j_flush deflate c.
 Proof.
-  intros parse limit inp rerr ls e n evs s out Hp Hscan. unfold source. rewrite Hscan.
-  apply (json_never_short deflate parse Hp).
+  intros parse limit inp rerr ls e n evs s out Hscan. unfold source. rewrite Hscan.
+  apply (json_never_short deflate parse).
 Qed.
 
 Theorem json_live_input : forall parse limit inp rerr n,
-  let init := j_init true n (source parse limit inp rerr) in
+  let init := j_init true n (source parse false limit inp rerr) in
   exists evs s, j_run deflate init evs = Some s /\ j_res s <> None /\ j_early deflate true true init evs = false /\
-                (length evs <= S (length (source parse limit inp rerr)))%nat.
+                (length evs <= S (length (source parse false limit inp rerr)))%nat.
 Proof. intros parse limit inp rerr n. apply j_calm_runs. Qed.
 
 End JsonInput.
@@ -830,15 +826,13 @@ Proof.
 Qed.
 
 Lemma json_example :
-  (forall l, wit_parse l <> PBad true) /\
   scan 8 [49; 13; 10; 50; 10; 10; 51]%N false = ([[49]; [50]; []; [51]]%N, ScanEof) /\
   scan 8 [49; 10; 50; 50; 50; 50; 50; 50; 50; 50; 10; 51]%N false = ([[49]]%N, ScanTooLong) /\
   docs_ok KDyn (parsed wit_parse wit_lines) /\
-  x_json_calm true 2 (script wit_parse wit_lines ScanEof) = JObsOk [wit_doc 49; wit_doc 50; wit_doc 51] [2; 1] /\
-  x_json_calm true 2 (script wit_parse [[49]; []; [51]]%N ScanEof) = JObsErr (JSrc (SParse false)).
+  x_json_calm true 2 (script wit_parse false wit_lines ScanEof) = JObsOk [wit_doc 49; wit_doc 50; wit_doc 51] [2; 1] /\
+  x_json_calm true 2 (script wit_parse false [[49]; []; [51]]%N ScanEof) = JObsErr (JSrc SParse).
 Proof.
-  split; [|split; [|split; [|split; [|split]]]].
-  - intros l. unfold wit_parse. destruct l as [|b [|c l]]; discriminate.
+  split; [|split; [|split; [|split]]].
   - vm_compute. reflexivity.
   - vm_compute. reflexivity.
   - split; [|split].
@@ -848,3 +842,11 @@ Proof.
   - vm_compute. reflexivity.
   - vm_compute. reflexivity.
 Qed.
+
+(* why the reader's failure must not be a wrapped io.EOF: the select loop's
+   `errors.Cause(err) == io.EOF` takes it for the end of the input *)
+Theorem json_wrapped_eof_refuted :
+  let items := script wit_parse true [[49]%N] ScanReadErr in
+  items = [IDoc (wit_doc 49); IErr (SRead true)] /\
+  x_json_run true 5 items [EvDoc 0; EvErr] = JObsOk [wit_doc 49] [1].
+Proof. cbv zeta. split; vm_compute; reflexivity. Qed.
